@@ -111,6 +111,32 @@ def check_case(case):
         worstB = max(worstB, d2)
     r.upd("sintl x Gram", worst * gd)
     r.upd("sintl-vs-B x Gram", worstB * gd)
+    # history / environment: the cell is a buffer the caller reuses (first a nearby cell, then this one), as list and as ndarray;
+    # numpy's global print options are switched to 2 decimals meanwhile (a cache keyed on str(array) would collide)
+    near = [cell[0] * (1 + 3e-4), cell[1], cell[2] * (1 - 2e-4), cell[3], cell[4] + (2e-4 if cell[4] < 170 else -2e-4), cell[5]]
+    old = np.get_printoptions()
+    np.set_printoptions(precision=2, suppress=True)
+    try:
+        h = (1, 2, -3)
+        hv = np.array(h, float)
+        ref = math.sqrt(float(hv @ Gi @ hv)) / 2
+        for kind, out in alph.dirty_call(lambda c_, h_: mod.sintl(c_, h_), (near, h), (cell, h)):
+            r.check("sintl reused cell", abs(float(out) - ref) / ref, tol, key + ":sintl:reused-%s" % kind, "sintl uses the CURRENT contents of a cell %s the caller reuses" % kind, ref, float(out))
+        for kind, out in alph.dirty_call(lambda c_: mod.form_b_mat(c_), (near,), (cell,)):
+            out = np.asarray(out, float)
+            r.check("B reused cell", float(np.max(np.abs(out.T @ out / f / f - Gi))) / float(np.max(np.abs(Gi))), tol, key + ":form_b_mat:reused-%s" % kind,
+                    "form_b_mat uses the CURRENT contents of a cell %s the caller reuses" % kind)
+        for kind, out in alph.dirty_call(lambda c_: mod.form_a_mat(c_), (near,), (cell,)):
+            out = np.asarray(out, float)
+            r.check("A reused cell", float(np.max(np.abs(out.T @ out - G))) / float(np.max(np.abs(G))), tol, key + ":form_a_mat:reused-%s" % kind,
+                    "form_a_mat uses the CURRENT contents of a cell %s the caller reuses" % kind)
+        # two DIFFERENT ndarray cells that print alike
+        c1, c2 = np.array(near, float), np.array(cell, float)
+        mod.sintl(c1, h)
+        out = mod.sintl(c2, h)
+        r.check("sintl look-alike arrays", abs(float(out) - ref) / ref, tol, key + ":sintl:look-alike-ndarray", "sintl of an ndarray cell after another ndarray cell that prints the same", ref, float(out))
+    finally:
+        np.set_printoptions(**old)
     if any(x != 90 for x in cell[3:]):
         r.nontrivial.add("%s:%s" % (mname, cell))
     return r
